@@ -295,6 +295,10 @@ def run_check(ctx, mod):
     fcntl.flock(lockf, fcntl.LOCK_EX)
     try:
         gen = regenerate(ctx) if getattr(mod, 'USES_GEN', True) else True
+        # optional per-property translator (tie by regeneration of a hand-modelled module): runs inside
+        # the lock, before the build; a refusal is recorded in ctx.broken (kind='translator')
+        if hasattr(mod, 'pre_build'):
+            mod.pre_build(ctx)
         b = build(ctx, mod.LEAN_MODULES, gen_ok=bool(gen))
         ok_mods = [m for m in mod.LEAN_MODULES if b.get(m, (False,))[0]]
         if ok_mods:
